@@ -288,7 +288,111 @@ def _exact_case(arg):
     return res.as_dict()
 
 
+class World:
+    """E1 world (added after seeded change C11-D was missed): one PeriodicGrid WITH lattice vectors used over a
+    history of queries, reassignments of weights / points and in-place edits of the local grid handed out last.
+    Every query must answer for the grid's current arrays (brute-force enumeration of images), whatever came before."""
+
+    CONF = {"1d": (1, "nonunit"), "2d": (2, "skew"), "3d2v": (3, "two"), "3d": (3, "neg")}
+
+    def __init__(self, seed, conf="2d", wrap=False):
+        from grid.periodicgrid import PeriodicGrid
+
+        self.seed, self.conf, self.wrap = seed, conf, wrap
+        self.violations = []
+        dim, lname = self.CONF[conf]
+        self.dim = dim
+        self.rv = LATTICES[dim][lname]
+        pts, w = make_points(dim, self.rv, "outside" if wrap else "inside", seed)
+        with warnings.catch_warnings():
+            warnings.simplefilter("ignore")
+            self.grid = PeriodicGrid(pts.copy(), w.copy(), self.rv, wrap=wrap)
+        p0 = np.array(self.grid.points, dtype=float)
+        self.P = [p0, p0 * 0.8 + 0.05]
+        self.W = [w.copy(), w[::-1].copy() * 2.0 + 0.1]
+        self.pv = self.wv = 0
+        pr = p0.reshape(len(p0), -1)
+        cell = min(3.0, float(np.max(np.linalg.norm(np.atleast_2d(self.rv).reshape(-1, dim), axis=1))))
+        self.centres = [pr.mean(axis=0), pr[2] + 0.37 * cell]
+        self.radii = [0.45 * cell, 1.3 * cell]
+        self.last = None
+        self.edited = False
+
+    def _bad(self, key, what, **det):
+        self.violations.append((f"history:{self.conf}:{key}", what, det))
+
+    def enabled(self):
+        evs = [("Q", ci, ri) for ci in (0, 1) for ri in (0, 1)] + [("SW",)]
+        if not self.wrap:
+            evs.append(("SP",))
+        if self.last is not None and not self.edited:
+            evs.append(("EL",))
+        return evs
+
+    def apply(self, ev):
+        g = self.grid
+        with warnings.catch_warnings():
+            warnings.simplefilter("ignore")
+            if ev[0] == "Q":
+                c, r = self.centres[ev[1]], self.radii[ev[2]]
+                cc = np.float64(c[0]) if self.dim == 1 else c.copy()
+                loc = g.get_localgrid(cc, r)
+                P, W = self.P[self.pv], self.W[self.wv]
+                ref, ties = brute(P, W, self.rv, c, r)
+                li = np.asarray(loc.indices)
+                lp = np.asarray(loc.points, dtype=float).reshape(len(li), -1) if len(li) else np.zeros((0, self.dim))
+                got = sorted((int(i), tuple(np.round(p, 9) + 0.0)) for i, p in zip(li, lp))
+                if not ties:
+                    if got != ref:
+                        self._bad("Q:wrong-images", f"{len(got)} images returned, brute force on the current points finds {len(ref)}")
+                    elif len(li) and not np.array_equal(np.asarray(loc.weights), W[li]):
+                        self._bad("Q:weights-not-current-parent-weights", "local weights are not the current parent weights of the indices")
+                if not (np.array_equal(g.points, P) and np.array_equal(g.weights, W)):
+                    self._bad("Q:grid-modified", "a query changed the grid's points or weights")
+                self.last, self.edited = (ev[1], ev[2], loc), False
+                return ("Q", len(li))
+            if ev[0] == "EL":
+                loc = self.last[2]
+                try:
+                    np.asarray(loc.weights)[...] *= 3.0
+                    np.asarray(loc.points)[...] += 0.7
+                    np.asarray(loc.indices)[...] = 0
+                except ValueError:
+                    pass
+                self.edited = True
+                if not (np.array_equal(g.points, self.P[self.pv]) and np.array_equal(g.weights, self.W[self.wv])):
+                    self._bad("EL:parent-changed", "editing a local grid in place changed the parent grid")
+                return ("EL",)
+            if ev[0] == "SW":
+                self.wv = 1 - self.wv
+                g.weights = self.W[self.wv].copy()
+            else:
+                self.pv = 1 - self.pv
+                g.points = self.P[self.pv].copy()
+            if not (np.array_equal(g.points, self.P[self.pv]) and np.array_equal(g.weights, self.W[self.wv])):
+                self._bad(f"{ev[0]}:state-mismatch", "after the assignment the grid does not hold the assigned arrays")
+            return (ev[0], self.pv, self.wv)
+
+    def canon(self):
+        tree = getattr(self.grid, "_kdtree", None)
+        tv = "none"
+        if tree is not None:
+            data = np.asarray(tree.data)
+            tv = "other"
+            for k, p in enumerate(self.P):
+                if data.shape == p.reshape(len(p), -1).shape and np.array_equal(data, p.reshape(len(p), -1)):
+                    tv = k
+        return (self.conf, self.wrap, self.pv, self.wv, tv, None if self.last is None else self.last[:2], self.edited)
+
+
 def run(ctx):
+    from vf import explore
+
+    for conf in World.CONF:
+        for wrap in (False, True):
+            st = explore.explore(ctx, "vf.props.c11:World", 4 if ctx.thorough else 3, params={"conf": conf, "wrap": wrap},
+                                 twice_every=7, fresh_every=0, section=f"history:{conf}")
+    ctx.cov["history_depth"] = 4 if ctx.thorough else 3
     for res in lattice.pmap(_exact_case, [(a, wr, ctx.seed) for a in (1.0, 0.5, 2.0, -1.0, -0.5) for wr in (False, True)], ctx.workers):
         ctx.merge(res)
     jobs = []
@@ -308,6 +412,10 @@ def run(ctx):
 
 
 def replay(ctx, case):
+    if "history" in case and isinstance(case["history"], list):
+        from vf import explore
+
+        return explore.replay_history(ctx, case)
     if case.get("exact"):
         ctx.merge(_exact_case((case["a"], case["wrap"], ctx.seed)))
         return
